@@ -144,6 +144,13 @@ def run_shard(pid, tier, seed, shard, nshards, scale=1.0, only_case=None):
             if dump.BUILD_CHECKS[0]:
                 ctx.count('sets_also_built_in_stages_and_compared', dump.BUILD_CHECKS[0])
                 dump.BUILD_CHECKS[0] = 0
+            try:
+                from vf.props import wcommon
+                if wcommon.POSITIONAL[0]:
+                    ctx.count('writers_constructed_with_positional_arguments', wcommon.POSITIONAL[0])
+                    wcommon.POSITIONAL[0] = 0
+            except Exception:
+                pass
             if dump.BUILD_PROBLEMS:
                 failures = list(failures) + dump.BUILD_PROBLEMS[:2]
                 del dump.BUILD_PROBLEMS[:]
